@@ -159,6 +159,13 @@ fn add_finding(ctx: &mut Ctx, kind: &'static str, suite: &str, cs: u64, what: St
     });
 }
 
+pub fn case_seed_pub(master: u64, suite: &str, idx: u64) -> u64 {
+    case_seed(master, suite, idx)
+}
+pub fn first_diff_pub(a: &[String], b: &[String]) -> String {
+    first_diff(a, b)
+}
+
 fn first_diff(a: &[String], b: &[String]) -> String {
     for k in 0..a.len().max(b.len()) {
         let x = a.get(k).cloned().unwrap_or("<nothing>".into());
@@ -1450,6 +1457,7 @@ pub fn run_property(ctx: &mut Ctx) {
     match prop.as_str() {
         "C01" | "C02" | "C03" | "C04" | "C05" | "C06" | "C11" | "C13" | "C14" | "C18" => suite_run(ctx, "run", k(6000, 60000)),
         "C17" => suite_run(ctx, "run", k(6000, 60000)),
+        "C16" => crate::dig::suite_dig(ctx, "dig", k(2500, 60000)),
         "C15" => {
             suite_c15(ctx, "c15", k(2500, 40000));
             suite_run(ctx, "run", k(1500, 20000));
